@@ -306,8 +306,8 @@ impl StepEnvNumpy {
             self.env.get_orderbook().get_trade_vol(),
             data.bid_price,
             data.ask_price,
-            data.ask_vol,
             data.bid_vol,
+            data.ask_vol,
             data.bid_price_levels[0].0,
             data.bid_price_levels[0].1,
             data.ask_price_levels[0].0,
@@ -354,8 +354,8 @@ impl StepEnvNumpy {
             self.env.get_orderbook().get_trade_vol(),
             data.bid_price,
             data.ask_price,
-            data.ask_vol,
             data.bid_vol,
+            data.ask_vol,
         ];
         for i in 0..10 {
             data_vec.push(data.bid_price_levels[i].0);
